@@ -21,9 +21,10 @@ type witness struct {
 	files   map[string]string // YANG
 	roots   []string
 	flags   pipeline.Flags
-	stage   string                    // where it fails: "build" | "vet" | "generate" | "conformance"
-	sig     *regexp.Regexp            // failure signature in the compiler / generator output
-	when    func(pipeline.Flags) bool // flag condition of the trigger (nil: any flag set)
+	stage   string                               // where it fails: "build" | "vet" | "generate" | "conformance"
+	sig     *regexp.Regexp                       // failure signature in the compiler / generator output
+	when    func(pipeline.Flags) bool            // flag condition of the trigger (nil: any flag set)
+	clWhen  map[string]func(pipeline.Flags) bool // flag condition of single classes
 }
 
 const hdr = "yang-version 1.1; namespace \"urn:%s\"; prefix %s;"
@@ -55,9 +56,10 @@ var witnesses = []witness{
 		stage: "build", sig: regexp.MustCompile(`redeclared|duplicate`),
 	},
 	{
-		id: "F25c-method-name-clash", classes: []string{yanggen.ClMethodValidate, yanggen.ClMethodAccessor},
-		files: map[string]string{"wa.yang": mod("wa", "  container c { leaf validate { type string; } }\n")},
-		roots: []string{"wa.yang"}, flags: pipeline.Flags{FakeRoot: true},
+		id: "F25c-method-name-clash", classes: []string{yanggen.ClMethodValidate, yanggen.ClMethodAccessor, yanggen.ClMethodAnnotation},
+		clWhen: map[string]func(pipeline.Flags) bool{yanggen.ClMethodAnnotation: func(f pipeline.Flags) bool { return f.Annotations }},
+		files:  map[string]string{"wa.yang": mod("wa", "  container c { leaf validate { type string; } }\n")},
+		roots:  []string{"wa.yang"}, flags: pipeline.Flags{FakeRoot: true},
 		stage: "build", sig: regexp.MustCompile(`field and method with the same name|redeclared|already declared`),
 	},
 	{
@@ -82,6 +84,16 @@ var witnesses = []witness{
 		when: func(f pipeline.Flags) bool { return f.Compress },
 	},
 	{
+		id: "F36-same-named-typedef-enums-conflated", classes: []string{yanggen.ClTypedefSameName},
+		files: map[string]string{
+			"wa.yang": mod("wa", "  typedef ratio { type enumeration { enum x25; enum up; } default x25; }\n"),
+			"wb.yang": mod("wb", "  import wa { prefix wa; }\n  typedef ratio { type enumeration { enum auto; enum down; } }\n  container c { leaf l { type ratio; } leaf m { type wa:ratio; } }\n"),
+		},
+		roots: []string{"wb.yang"}, flags: pipeline.Flags{FakeRoot: true, PopulateDefaults: true},
+		stage: "build", sig: regexp.MustCompile(`undefined: \w+_\w+`),
+		when: func(f pipeline.Flags) bool { return !f.TypedefEnumWithDefmod },
+	},
+	{
 		id:    "F29-split-files-unused-imports",
 		files: map[string]string{"wa.yang": mod("wa", "  container c { leaf l { type string; } }\n")},
 		roots: []string{"wa.yang"}, flags: pipeline.Flags{FakeRoot: true, SplitFiles: 1},
@@ -95,6 +107,11 @@ var probes = []witness{
 		roots: []string{"wa.yang"}, flags: pipeline.Flags{FakeRoot: true, Getters: true, Append: true, Delete: true, Rename: true, LeafGetters: true, LeafSetters: true}},
 	{classes: []string{yanggen.ClCamelSiblings, yanggen.ClDashUnderscore}, files: map[string]string{"wa.yang": mod("wa", "  container c { leaf leaf-one { type string; } leaf leaf-One { type uint8; } leaf leafOne { type int8; } container a-b { leaf x { type string; } } container a_b { leaf y { type string; } } list a.b { key k; leaf k { type string; } } }\n")},
 		roots: []string{"wa.yang"}, flags: pipeline.Flags{FakeRoot: true, Getters: true, Append: true, Delete: true, Rename: true, LeafGetters: true, LeafSetters: true, PopulateDefaults: true}},
+	// F25c, third form: annotation field vs generated Λ-method
+	{classes: []string{yanggen.ClMethodAnnotation}, files: map[string]string{"wa.yang": mod("wa", "  container c { leaf belonging-module { type string; } leaf enum-type-map { type string; } list l { key k; leaf k { type string; } leaf list-key-map { type string; } } }\n")},
+		roots: []string{"wa.yang"}, flags: pipeline.Flags{FakeRoot: true, Annotations: true}},
+	{classes: []string{yanggen.ClMethodAnnotation}, files: map[string]string{"wa.yang": mod("wa", "  container c { leaf belonging-module { type string; } leaf enum-type-map { type string; } list l { key k; leaf k { type string; } leaf list-key-map { type string; } } }\n")},
+		roots: []string{"wa.yang"}, flags: pipeline.Flags{FakeRoot: true}},
 	// F25d, second form: a key and a non-key sibling (policy / Policy); third: benign orders (must compile)
 	{classes: []string{yanggen.ClKeyOrder}, files: map[string]string{"wa.yang": mod("wa", "  container c { list l { key \"policy\"; leaf policy { type string; } leaf Policy { type uint8; } } }\n")},
 		roots: []string{"wa.yang"}, flags: pipeline.Flags{FakeRoot: true}},
